@@ -828,7 +828,10 @@ pub fn c19(tier: Tier) -> ! {
         if an.final_mismatch {
             return v;
         }
-        if an.flags_all & F_STEP_TOO_BIG != 0 {
+        // judged over the histories that obey the deterministic clauses of the acceptance rule: a
+        // move is measured from the state the run is in, not from one it could only be in had a
+        // better proposal been refused or one without a score been taken
+        if an.flags_lawful & F_STEP_TOO_BIG != 0 {
             let t = an.first_flag_step;
             v.push((None, format!("a move exceeds max_step_size * range / 2 = {:?} (first at step {}, inner loop {})", step_bounds(cfg, spec), t, cfg.loop_of(t.max(1)) + 1)));
         }
@@ -836,6 +839,40 @@ pub fn c19(tier: Tier) -> ! {
     };
     let t = run_jobs(&mut run, &jobs, &judge);
     setter_orders(&mut run, &pick_for_setter_orders(&plain_jobs, tier.pick(8, 32)), &judge);
+    // bounces off a limit against a call-by-call score function: an accepted move onto the limit
+    // from a fraction of a step inside, the same move again (now no move at all) refused, then a
+    // move back inside - every fraction, refusal pattern and return move of a small alphabet
+    let mut bounces = 0u64;
+    for n in 1..=2usize {
+        for &ms in [0.5, 0.1, 0.01].iter() {
+            for &frac in [0.2, 0.4, 0.9].iter() {
+                for &back in [0.7, 0.95, 1. - 1. / 4503599627370496.0].iter() {
+                    for refusals in 1..=2usize {
+                        for &(kt, upper) in [(0., false), (1e300, false), (0., true)].iter() {
+                            let mut spec = ProbeSpec::interior(n).raw();
+                            let (lo, hi) = spec.bounds[0];
+                            let hw = ms * (hi - lo) / 2.;
+                            spec.start[0] = if upper { hi - frac * hw } else { lo + frac * hw };
+                            let cfg = Cfg { steps: (2 + refusals) as u64, inner: (2 + refusals) as u64, kt_start: kt, kt_finish: None, kt_ratio: Some(0.), max_step: ms, convergence: None, history: 0 };
+                            let away = if upper { 1. - 1. / 4503599627370496.0 } else { 0. };
+                            let mut script = vec![StepScript { index: 0, q: away, thr_k: thr_k_of(0.5), answer: Some(1.) }];
+                            for _ in 0..refusals {
+                                script.push(StepScript { index: 0, q: away, thr_k: thr_k_of(0.5), answer: None });
+                            }
+                            script.push(StepScript { index: 0, q: if upper { 1. - back } else { back }, thr_k: thr_k_of(0.5), answer: Some(5.) });
+                            let obs = run_script(&cfg, &spec, &script);
+                            let an = analyse(&cfg, &obs, Some(&step_bounds(&cfg, &spec)));
+                            bounces += 1;
+                            for (_, what) in judge(&cfg, &spec, &script, &obs, &an) {
+                                run.fail(None, &format!("bounce off a limit: {}", what), case_json(&cfg, &spec, &script));
+                            }
+                        }
+                    }
+                }
+            }
+        }
+    }
+    run.set("bounce_scripts", bounces);
     // real hard and LJ crystal states: every proposal of a chained-stage search (engine rsx, every
     // valid proposal accepted so the parent of each proposal is known) against the same bound,
     // with the ranges the property declares for cell, site and orientation parameters
